@@ -93,7 +93,7 @@ access(all) contract Conc {
 // c36Script renders the k-th script of worker g (templates x parameters; distinct sources force their own parse + check).
 func c36Script(r *Rng, g, k int) string { return c36ScriptT(r, g, k, -1) }
 
-const c36Templates = 13
+const c36Templates = 14
 
 // c36ScriptT: tmpl >= 0 forces the template (the same random draws are consumed either way).
 func c36ScriptT(r *Rng, g, k, tmpl int) string {
@@ -227,6 +227,52 @@ access(all) fun main(): [AnyStruct] {
     let rr = &x as auth(Conc.E2) &Conc.KImpl
     return [a, b, i.f2(), i.f1(), i.f3(), d != nil, r.getType().identifier, rr.k2(), rr.inner.f1(), %d]
 }`, a, g*100+k)
+	case 13:
+		// resources moved in branches, loops and optional bindings (the checker's per-branch resource tracking), optional chaining
+		// and other metered type constructions inside conditionally evaluated code
+		return fmt.Sprintf(`import World from 0x1
+access(all) fun main(): [Int] {
+    let out: [Int] = []
+    let r <- World.make(%d)
+    let q <- World.make(%d)
+    var opt: @World.R? <- nil
+    if r.id %% 2 == 0 {
+        opt <-! r
+    } else {
+        let tmp <- r
+        opt <-! tmp
+    }
+    var i = 0
+    let arr: @[World.R] <- []
+    while i < 3 {
+        let t <- World.make(i)
+        if i == 1 { arr.append(<- t) } else { destroy t }
+        i = i + 1
+    }
+    if let got <- opt {
+        out.append(got.id)
+        let s: String? = got.id > 5 ? "big" : nil
+        out.append(s?.length ?? 0)
+        arr.append(<- got)
+    } else {
+        out.append(-1)
+    }
+    switch q.id %% 3 {
+    case 0:
+        let d: {String: [Int]}? = {"k": [q.id]}
+        out.append(d?.length ?? 0)
+        destroy q
+    case 1:
+        arr.append(<- q)
+    default:
+        let w <- q
+        destroy w
+    }
+    out.append(arr.length)
+    destroy arr
+    out.append(%d)
+    return out
+}`, a, b, g*100+k)
 	case 12:
 		// members of built-in types (lazily initialised member resolvers), string / array / path / address functions
 		return fmt.Sprintf(`access(all) fun main(): [AnyStruct] {
@@ -271,6 +317,10 @@ type c36Job struct {
 	// Focus > 0: the first script of EVERY worker is an instance of template Focus-1 (distinct sources), so that all workers
 	// reach the same cold lazily initialised caches of the shared types at the same time
 	Focus int `json:"focus,omitempty"`
+	// Aborts: before each of its scripts every worker also runs a doomed execution (a script of its own under a memory or computation
+	// budget drawn from the job seed, so that it is aborted somewhere in parsing, checking, compiling or running). The doomed
+	// executions are not compared; the regular scripts must still behave as when run alone, without any doomed neighbour.
+	Aborts bool `json:"aborts,omitempty"`
 }
 
 func c36BaseWorld() *World {
@@ -333,9 +383,10 @@ func decodeWorld(b []byte) *World {
 type sharedEntry struct {
 	loading bool
 	done    bool
+	aborted bool // the load was abandoned (the loading execution was aborted): waiters retry
 	p       *runtime.Program
 	err     error
-	once    sync.Once
+	ch      chan struct{} // mode R: closed when the load ended one way or the other
 }
 
 type sharedCache struct {
@@ -373,6 +424,9 @@ func c36Scripts(job c36Job) [][]string {
 				out[g] = append(out[g], shared)
 			} else if k == 0 && job.Focus > 0 {
 				out[g] = append(out[g], c36ScriptT(r, g, k, job.Focus-1))
+			} else if job.Aborts && k != 1 && r.Intn(2) == 0 {
+				// after a doomed execution: a program that tracks resources through branches (the checker's pooled per-branch state)
+				out[g] = append(out[g], c36ScriptT(r, g, k, 13))
 			} else {
 				out[g] = append(out[g], c36Script(r, g, k))
 			}
@@ -448,6 +502,7 @@ func runConcurrent(base *World, job c36Job) c36Outcome {
 				<-start
 			}
 			n := NewNode(NodeConfig{Name: fmt.Sprintf("w%d", g), Engine: job.Engine, Cache: "warm", EnvReuse: true}, base.Clone())
+			doomed := false
 			n.H.SharedLoad = func(h *Host, loc runtime.Location, load func() (*runtime.Program, error)) (*runtime.Program, error, bool) {
 				switch loc.(type) {
 				case common.TransactionLocation, common.ScriptLocation:
@@ -455,33 +510,109 @@ func runConcurrent(base *World, job c36Job) c36Outcome {
 				}
 				if s != nil {
 					// scheduler-level wait (no real lock is held while parked)
+					for {
+						e := cache.m[loc]
+						if e == nil {
+							e = &sharedEntry{loading: true}
+							cache.m[loc] = e
+							func() {
+								defer func() {
+									if r := recover(); r != nil {
+										// the loading execution was aborted inside the load: nothing is cached
+										e.aborted = true
+										delete(cache.m, loc)
+										panic(r)
+									}
+								}()
+								e.p, e.err = load()
+							}()
+							if doomed && e.err != nil {
+								// an error of a doomed execution may be its own limit: not cached for the others
+								e.aborted = true
+								delete(cache.m, loc)
+								return e.p, e.err, true
+							}
+							e.done = true
+							return e.p, e.err, true
+						}
+						for !e.done && !e.aborted {
+							s.yield(g)
+						}
+						if e.done {
+							return e.p, e.err, true
+						}
+					}
+				}
+				for {
+					cache.mu.Lock()
 					e := cache.m[loc]
+					owner := false
 					if e == nil {
-						e = &sharedEntry{loading: true}
+						e = &sharedEntry{ch: make(chan struct{})}
 						cache.m[loc] = e
-						e.p, e.err = load()
+						owner = true
+					}
+					cache.mu.Unlock()
+					if owner {
+						func() {
+							defer func() {
+								if r := recover(); r != nil {
+									cache.mu.Lock()
+									delete(cache.m, loc)
+									cache.mu.Unlock()
+									close(e.ch)
+									panic(r)
+								}
+							}()
+							e.p, e.err = load()
+						}()
+						if doomed && e.err != nil {
+							cache.mu.Lock()
+							delete(cache.m, loc)
+							cache.mu.Unlock()
+							close(e.ch)
+							return e.p, e.err, true
+						}
+						cache.mu.Lock()
 						e.done = true
+						cache.mu.Unlock()
+						close(e.ch)
 						return e.p, e.err, true
 					}
-					for !e.done {
-						s.yield(g)
+					<-e.ch
+					cache.mu.Lock()
+					done := e.done
+					cache.mu.Unlock()
+					if done {
+						return e.p, e.err, true
 					}
-					return e.p, e.err, true
 				}
-				cache.mu.Lock()
-				e := cache.m[loc]
-				if e == nil {
-					e = &sharedEntry{}
-					cache.m[loc] = e
-				}
-				cache.mu.Unlock()
-				e.once.Do(func() { e.p, e.err = load() })
-				return e.p, e.err, true
 			}
 			if s != nil {
 				n.H.Hook = func(h *Host, kind string) { s.yield(g) }
 			}
+			rd := NewRng(job.Seed ^ uint64(0xd00d*(g+1)))
 			for k, src := range scripts[g] {
+				if job.Aborts {
+					site := []string{"mem", "comp"}[rd.Intn(2)]
+					budget := rd.Intn(7000)
+					if rd.Intn(2) == 0 {
+						budget = rd.Intn(1500)
+					}
+					if site == "comp" {
+						budget = rd.Intn(120)
+					}
+					dsrc := c36Script(rd, g, 100+k)
+					if rd.Intn(4) != 0 {
+						dsrc = c36ScriptT(rd, g, 100+k, 13)
+						if site == "mem" {
+							budget = rd.Intn(2500)
+						}
+					}
+					doomed = true
+					n.Exec(ExecReq{Kind: "script", Source: dsrc, Salt: uint64(g*1000 + 500 + k), Faults: []FaultSpec{{Site: site, Nth: budget, Mode: "sticky"}}}, false)
+					doomed = false
+				}
 				t := n.Exec(ExecReq{Kind: "script", Source: src, Salt: uint64(g*1000 + k)}, false)
 				out.Summaries[g] = append(out.Summaries[g], summaryOf(t))
 			}
@@ -622,6 +753,11 @@ func c36Worker(w *WorkerCtx) {
 		r := NewRng(seed)
 		engine := []string{"interp", "vm"}[r.Intn(2)]
 		job := c36Job{Seed: seed, W: 2 + r.Intn(15), PerWorker: 2 + r.Intn(3), Engine: engine}
+		abortsExtra := "jobs_without_aborted_executions"
+		if r.Intn(3) == 0 {
+			job.Aborts = true
+			abortsExtra = "jobs_with_aborted_executions"
+		}
 		if k%3 == 0 {
 			// mode S, in this process
 			job.Mode = "S"
@@ -630,9 +766,14 @@ func c36Worker(w *WorkerCtx) {
 			}
 			conc := runConcurrent(base, job)
 			again := runConcurrent(base, job)
-			extra := map[string]int{"modeS_jobs": 1, "modeS_context_switches": len(conc.Schedule)}
-			vs := c36Compare(job, conc, runSolo(base, job))
-			if fmt.Sprint(conc.Schedule) != fmt.Sprint(again.Schedule) || fmt.Sprint(conc.Summaries) != fmt.Sprint(again.Summaries) {
+			extra := map[string]int{"modeS_jobs": 1, "modeS_context_switches": len(conc.Schedule), abortsExtra: 1}
+			solo := runSolo(base, job)
+			vs := c36Compare(job, conc, solo)
+			if len(vs) == 0 {
+				// a script that behaves differently from its solo run is a violation in whichever of the two runs it shows
+				vs = c36Compare(job, again, solo)
+			}
+			if len(vs) == 0 && (fmt.Sprint(conc.Schedule) != fmt.Sprint(again.Schedule) || fmt.Sprint(conc.Summaries) != fmt.Sprint(again.Summaries)) {
 				w.Emit(WorkResult{Kind: "harness-error", Msg: fmt.Sprintf("C36 mode S is not deterministic for seed %d", seed)})
 				return
 			}
@@ -654,7 +795,7 @@ func c36Worker(w *WorkerCtx) {
 			w.Emit(WorkResult{Kind: "harness-error", Msg: herr})
 			return
 		}
-		if emit(job, vs, map[string]int{"modeR_jobs": 1, fmt.Sprintf("modeR_gomaxprocs_%d", job.MaxProcs): 1, focusExtra: 1}, report) {
+		if emit(job, vs, map[string]int{"modeR_jobs": 1, fmt.Sprintf("modeR_gomaxprocs_%d", job.MaxProcs): 1, focusExtra: 1, abortsExtra: 1}, report) {
 			return
 		}
 	}
